@@ -323,6 +323,8 @@ MANIFEST = {
             "concurrency (random mix, a goroutine moving the normal flag between two modes, and a forced schedule "
             "that parks a writer inside the model lock with a blocking clock while a clear and a flag move queue "
             "up) must return a normal mode: lookup and switch are one atomic step. "
+            "Models are also constructed with initial modes and an initial active mode (the constructor options, "
+            "a generated well-formed initial configuration) and the clauses judged from the first step on. "
             "Conformance on the generated sequences and sampled schedules, bounded model checking of the design; "
             "not a proof.",
     "note": "Trusted base: TLC 1.8.0 evaluating the TLA+ predicates; the harness abstraction (ids a-d / g<k> for "
